@@ -26,16 +26,16 @@ type VerifAdmission struct {
 	t *torrent
 }
 
-type verifConn struct{ remote *net.TCPAddr }
+type verifAdmConn struct{ remote *net.TCPAddr }
 
-func (c verifConn) Read([]byte) (int, error)         { return 0, io.EOF }
-func (c verifConn) Write(b []byte) (int, error)      { return len(b), nil }
-func (c verifConn) Close() error                     { return nil }
-func (c verifConn) LocalAddr() net.Addr              { return &net.TCPAddr{IP: net.IPv4(127, 0, 0, 1), Port: 1} }
-func (c verifConn) RemoteAddr() net.Addr             { return c.remote }
-func (c verifConn) SetDeadline(time.Time) error      { return nil }
-func (c verifConn) SetReadDeadline(time.Time) error  { return nil }
-func (c verifConn) SetWriteDeadline(time.Time) error { return nil }
+func (c verifAdmConn) Read([]byte) (int, error)         { return 0, io.EOF }
+func (c verifAdmConn) Write(b []byte) (int, error)      { return len(b), nil }
+func (c verifAdmConn) Close() error                     { return nil }
+func (c verifAdmConn) LocalAddr() net.Addr              { return &net.TCPAddr{IP: net.IPv4(127, 0, 0, 1), Port: 1} }
+func (c verifAdmConn) RemoteAddr() net.Addr             { return c.remote }
+func (c verifAdmConn) SetDeadline(time.Time) error      { return nil }
+func (c verifAdmConn) SetReadDeadline(time.Time) error  { return nil }
+func (c verifAdmConn) SetWriteDeadline(time.Time) error { return nil }
 
 func VerifNewAdmission(maxDial, maxAccept, maxAddrs, port int, bl *blocklist.Blocklist, blIn, blOut bool, externalIP net.IP) *VerifAdmission {
 	cfg := DefaultConfig
@@ -73,7 +73,7 @@ func VerifNewAdmission(maxDial, maxAccept, maxAddrs, port int, bl *blocklist.Blo
 func (v *VerifAdmission) Peers(addrs []*net.TCPAddr, src peersource.Source) { v.t.handleNewPeers(addrs, src) }
 
 func (v *VerifAdmission) Accept(ip net.IP, port int) {
-	v.t.handleNewConnection(verifConn{remote: &net.TCPAddr{IP: ip, Port: port}})
+	v.t.handleNewConnection(verifAdmConn{remote: &net.TCPAddr{IP: ip, Port: port}})
 }
 
 // OutgoingFail ends the outgoing handshaker for addr with an error, as the event loop would on receiving it.
